@@ -1,3 +1,5 @@
 import PhysisModel.Base.Bytes
 import PhysisModel.Base.BytesLemmas
 import PhysisModel.Properties.C12
+import PhysisModel.Properties.C06
+import PhysisModel.Properties.C07
